@@ -122,6 +122,14 @@ pub fn violation(property: &str, signature: String, message: String) {
     })
 }
 
+thread_local! {
+    static SINGLE_CALLER: std::cell::Cell<bool> = std::cell::Cell::new(false);
+}
+
+fn single_caller() -> bool {
+    SINGLE_CALLER.with(|c| c.get())
+}
+
 pub fn shutdown_was_called() -> bool {
     RUN.with(|r| r.try_borrow().map(|r| r.shutdown_called).unwrap_or(false))
 }
@@ -513,6 +521,11 @@ pub fn exec_op(cache: &Cache, ctx: &mut ThreadCtx, i: usize, op: &Op, shards: us
         match wait {
             Wait::Now => {
                 await_ack(&ack, (t, i), t);
+                if let Op::Upsert { weight: Some(_), .. } = op {
+                    if single_caller() {
+                        log(Item::WeightAfterAck { t, i, weight: cache.total_weight_used() });
+                    }
+                }
             }
             Wait::Later => {
                 ctx.pending.push((i, ack.clone()));
@@ -600,6 +613,7 @@ pub fn body() {
     log(Item::Phase("run".into()));
 
     let mut leftovers: Vec<(usize, usize, Ack)> = vec![];
+    SINGLE_CALLER.with(|c| c.set(online.is_some() && sc.threads.len() <= 1));
     if let Some(drv) = online.as_mut() {
         // SEQ: thread 0 drives online; other threads (if any) run fixed programs beside it
         let mut handles = vec![];
